@@ -62,6 +62,7 @@ import (
 	"crypto/x509"
 	"encoding/asn1"
 	"encoding/base64"
+	"encoding/binary"
 	"errors"
 	"fmt"
 	"log"
@@ -1098,6 +1099,23 @@ func c01MakeEdits(b *c01Base) {
 				s.payload = s.payload[:k]
 			}
 		})
+	}
+	// the 8-byte record-size field in front of the MI stream is not signed itself; it is bound through the
+	// proofs only.  Every value from 0 to payload length + 33 and the extremes: a decoder that validates more
+	// bytes than it hands back accepts a shortened payload for a record size just below the payload length
+	if n >= 8 {
+		vals := []uint64{1 << 16, 1 << 32, 1<<63 - 1, 1 << 63, 1<<64 - 1}
+		for v := 0; v <= len(b.raw)+33 && v <= 120; v++ {
+			vals = append(vals, uint64(v))
+		}
+		for _, v := range vals {
+			v := v
+			add(fmt.Sprintf("payload record-size field = %d", v), "payload record size", v+1 == uint64(len(b.raw)), func(s *c01State) {
+				if len(s.payload) >= 8 {
+					binary.BigEndian.PutUint64(s.payload[:8], v)
+				}
+			})
+		}
 	}
 	add("payload + 1 byte", "payload extended", true, func(s *c01State) { s.payload = append(s.payload, 0x41) })
 	add("payload + 33 bytes", "payload extended", false, func(s *c01State) { s.payload = append(s.payload, bytes.Repeat([]byte{0x42}, 33)...) })
